@@ -5,9 +5,13 @@
    in order; Code and unnamed fences run in the main store and the first error there ends the document; a fence
    named n runs in n's own store (created from [init] on first use) and its first error ends that fence only;
    prose, non-mech code blocks and disabled fences do nothing.  All theorems of sections 1-5 hold for EVERY
-   statement semantics [exec], every comment effect [cmt] and every initial store [init], and for all documents. *)
+   statement semantics [exec], every comment effect [cmt] and every initial store [init], and for all documents.
+
+   Sections 8-12: the block-level classification of a document at the granularity of lines (Model/DocScan.v mirrors
+   src/syntax/src/mechdown.rs code_block / section and src/syntax/src/parser.rs mech_code): which line opens a fence,
+   which closes it, how the info string is split, and what the scanned document executes. *)
 From Coq Require Import List ZArith String.
-From MechV Require Import Base.Sexp Base.Obs Model.Doc Proofs.DocP.
+From MechV Require Import Base.Sexp Base.Obs Model.Doc Proofs.DocP Model.DocScan Proofs.DocScanP.
 Import ListNotations.
 
 (* 1. Prose is inert: titles, paragraphs, lists, quotes, tables, other-language / disabled fences can be
@@ -190,3 +194,217 @@ Example C10_example_judge :
     = "(bad main-table-differs ((""ans"" 0 (s f64 1)) (""x"" 0 (s f64 1))))".
 Proof. repeat split; vm_compute; reflexivity. Qed.
 Print Assumptions C10_example_judge.
+
+(* ====================================================================================================
+   8. The line-level scanner.  [scan is_code ls] reads the fence structure from the TEXT of the lines; [is_code]
+      of a line's annotation only says whether the parser consumes the blanks in front of the next line.
+      A fence is opened by a line that starts with ``` or ~~~ (after blanks only where they have been consumed),
+      its body ends at the first line that CONTAINS the same sigil, the other sigil type is body text. *)
+
+(* (a) written and read back: every list of blocks whose fence bodies contain no line with the fence's own sigil
+       (and whose lines outside fences do not start with a sigil) is recovered exactly - for all documents,
+       all annotations; in particular bodies may contain complete fences of the other sigil type *)
+Theorem C10_scan_round_trip : forall (A : Type) (is_code : A -> bool) (dflt : A) (bs : list (block A)),
+  wf_blocks is_code true bs -> scan is_code (render dflt bs) = Closed bs.
+Proof. exact (@scan_render_doc). Qed.
+Print Assumptions C10_scan_round_trip.
+
+(* a complete fence line of the OTHER type - blanks, the other sigil, any info string such as `mech:x` - satisfies
+   the hypothesis of (a) on body lines: it never closes the fence *)
+Theorem C10_other_sigil_stays_inside : forall sg ind raw,
+  all_blank ind = true -> find_sig sg raw = None ->
+  find_sig sg (ind ++ sig_str (other_sig sg) ++ raw) = None.
+Proof. exact find_sig_other_line. Qed.
+Print Assumptions C10_other_sigil_stays_inside.
+
+(* a line `blanks sigil rest` closes the fence of that sigil, whatever follows the sigil *)
+Theorem C10_own_sigil_closes : forall sg pre post,
+  all_blank pre = true -> find_sig sg (pre ++ sig_str sg ++ post) = Some (pre, post).
+Proof. exact find_sig_blank_prefix. Qed.
+Print Assumptions C10_own_sigil_closes.
+
+(* an opening line followed only by lines without its sigil: the fence is never closed, the scan says so (and the
+   real parser rejects the whole document: judge, section 11) *)
+Theorem C10_scan_unclosed : forall (A : Type) (is_code : A -> bool) (dflt : A) (bs : list (block A)) ind sg raw body,
+  wf_blocks is_code true bs -> all_blank ind = true -> (eat_after is_code true bs = true \/ ind = "") ->
+  (forall l, In l body -> find_sig sg (fst l) = None) ->
+  scan is_code (render dflt bs ++ ((ind ++ sig_str sg ++ raw)%string, dflt) :: body)%list = Unclosed bs ind sg raw body.
+Proof. exact (@scan_unclosed). Qed.
+Print Assumptions C10_scan_unclosed.
+
+(* for EVERY list of lines (no hypothesis): the blocks the scanner returns, written out again, are the lines -
+   no text is lost, moved or invented *)
+Theorem C10_scan_loses_nothing : forall (A : Type) (is_code : A -> bool) (dflt : A) (ls : list (string * A)),
+  res_lines dflt (scan is_code ls) = map fst ls.
+Proof. exact (@scan_loses_nothing). Qed.
+Print Assumptions C10_scan_loses_nothing.
+
+(* ====================================================================================================
+   9. What a scanned document executes (connection to the document algebra of sections 1-5).
+      [elems_of norm bs] are the elements of Model/Doc.v that the blocks are; [norm] is the reading of a tag
+      ([keep_tag] = the code, [rtrim] = without the blanks at its end; the theorems hold for every reading). *)
+
+(* (b) the main program = the code lines outside fences and the bodies of the `mech` / `mech:hidden` fences, in
+       document order; prose, blank lines, plain / other-language / disabled fences and named fences contribute nothing *)
+Theorem C10_scanned_main_program : forall (S stmt : Type) (exec : S -> stmt -> res S) (cmt : S -> S) (init : S)
+  (norm : string -> string) (bs : list (block (role stmt))),
+  main_items (elems_of norm bs) = flat_map (main_of_block norm) bs /\
+  d_main (run_doc exec cmt init (elems_of norm bs)) = fst (run_items exec cmt init (flat_map (main_of_block norm) bs)) /\
+  d_halted (run_doc exec cmt init (elems_of norm bs)) = negb (snd (run_items exec cmt init (flat_map (main_of_block norm) bs))).
+Proof. intros. split; [apply main_of_blocks|apply scanned_main_store]. Qed.
+Print Assumptions C10_scanned_main_program.
+
+(* the program of the namespace n = the bodies of the fences whose name is n, in document order, and the store of n
+   is the fold over those that are reached *)
+Theorem C10_scanned_namespace_program : forall (S stmt : Type) (exec : S -> stmt -> res S) (cmt : S -> S) (init : S)
+  (norm : string -> string) n (bs : list (block (role stmt))),
+  ns_fences n (elems_of norm bs) = flat_map (ns_of_block norm n) bs /\
+  lookup n (d_subs (run_doc exec cmt init (elems_of norm bs))) =
+    ns_result exec cmt init n (live exec cmt init (elems_of norm bs)).
+Proof. intros. split; [apply ns_of_blocks|apply scanned_namespace_store]. Qed.
+Print Assumptions C10_scanned_namespace_program.
+
+Theorem C10_inert_blocks_contribute_nothing : forall (S stmt : Type) (exec : S -> stmt -> res S) (cmt : S -> S) (init : S)
+  (norm : string -> string) (bs : list (block (role stmt))),
+  run_doc exec cmt init (elems_of norm (filter (block_executes norm) bs)) = run_doc exec cmt init (elems_of norm bs).
+Proof. exact (@inert_blocks_contribute_nothing). Qed.
+Print Assumptions C10_inert_blocks_contribute_nothing.
+
+(* (a)+(b): a document written from blocks executes exactly what the blocks say; one that ends inside a fence
+   does not parse *)
+Theorem C10_written_document_executes_its_blocks : forall (stmt : Type) (norm : string -> string)
+  (bs : list (block (role stmt))),
+  wf_blocks role_is_code true bs -> doc_elems norm (render RFence bs) = Some (elems_of norm bs).
+Proof. exact (@doc_elems_render). Qed.
+Print Assumptions C10_written_document_executes_its_blocks.
+
+Theorem C10_unclosed_document_does_not_parse : forall (stmt : Type) (norm : string -> string)
+  (bs : list (block (role stmt))) ind sg raw body,
+  wf_blocks role_is_code true bs -> all_blank ind = true -> (eat_after role_is_code true bs = true \/ ind = "") ->
+  (forall l, In l body -> find_sig sg (fst l) = None) ->
+  doc_elems norm (render RFence bs ++ ((ind ++ sig_str sg ++ raw)%string, RFence) :: body)%list = None.
+Proof. exact (@doc_elems_unclosed). Qed.
+Print Assumptions C10_unclosed_document_does_not_parse.
+
+(* ====================================================================================================
+   10. (c) Names.  The name of a fence is everything after `mech:` (or `mec:`): the splitter
+       trim_start_matches("mech") . ("mec") . (robot) . (":") removes nothing of a name that does not start with a
+       colon - names made of the letters m, e, c, h included. *)
+Theorem C10_name_is_everything_after_the_colon : forall n,
+  no_colon_head n -> mech_rest ("mech:" ++ n) = n /\ mech_rest ("mec:" ++ n) = n.
+Proof. exact mech_rest_name. Qed.
+Print Assumptions C10_name_is_everything_after_the_colon.
+
+Theorem C10_named_tag : forall n,
+  no_colon_head n -> reserved_name n = false ->
+  classify_tag ("mech:" ++ n) = TNamed n /\ classify_tag ("mec:" ++ n) = TNamed n.
+Proof. exact classify_named. Qed.
+Print Assumptions C10_named_tag.
+
+(* injective over the identifier alphabet (letters, digits, dash, underscore), the reserved words `disabled` and
+   `hidden` excepted *)
+Theorem C10_names_injective : forall n1 n2,
+  ident_chars n1 = true -> ident_chars n2 = true -> reserved_name n1 = false -> reserved_name n2 = false ->
+  (classify_tag ("mech:" ++ n1) = classify_tag ("mech:" ++ n2) <-> n1 = n2) /\
+  classify_tag ("mech:" ++ n1) = TNamed n1.
+Proof. exact classify_ident_injective. Qed.
+Print Assumptions C10_names_injective.
+
+(* two named fences feed the same interpreter iff their names are equal as strings (the interpreter keys them by
+   hash_str(name): assumption "no collision of the 64-bit hash among the names of one document") *)
+Theorem C10_same_namespace_iff_same_name : forall (stmt : Type) (norm : string -> string) (f1 f2 : fence (role stmt)) n1 n2,
+  fence_kind norm f1 = TNamed n1 -> fence_kind norm f2 = TNamed n2 ->
+  ((exists n, ns_of_block norm n (BFence f1) <> [] /\ ns_of_block norm n (BFence f2) <> []) <-> n1 = n2).
+Proof. exact (@same_namespace_iff). Qed.
+Print Assumptions C10_same_namespace_iff_same_name.
+
+(* ====================================================================================================
+   11. The judge of the line cases.  `ok`: the echoed document is exactly the lines; either the model finds a fence
+       that is never closed and the real parser rejected the document, or every block is of a modelled shape, the
+       parsed tree has exactly the model's fenced blocks and top-level code runs (kinds, names, disabled / hidden
+       flags, items, plain bodies as text) and all tables equal those of the code-only documents of the SCANNED
+       elements. *)
+Theorem C10_judge_lines_sound : forall stream listed ls os tag,
+  judge_lines stream listed ls os = Some (v_ok tag) -> C10_scan_spec ls os.
+Proof. exact judge_lines_sound. Qed.
+Print Assumptions C10_judge_lines_sound.
+
+(* ====================================================================================================
+   12. Finding `fence-info-trailing-blank`: code_id keeps the blanks at the end of the opening line.
+       Refutation (the model of the code's reading): "```mech " is the namespace " " and not the main program,
+       "```mech:disabled " is executed, "```mech:a " and "```mech:a" are different namespaces ... *)
+Theorem C10_refuted_fence_info_trailing_blank :
+  classify_tag (keep_tag "mech ") = TNamed " " /\ classify_tag (rtrim "mech ") = TUnnamed /\
+  classify_tag (keep_tag "mech:disabled ") = TNamed "disabled " /\ classify_tag (rtrim "mech:disabled ") = TDisabled /\
+  classify_tag (keep_tag "mech:a ") <> classify_tag (keep_tag "mech:a") /\
+  classify_tag (rtrim "mech:a ") = classify_tag (rtrim "mech:a").
+Proof. exact trailing_blank_refuted. Qed.
+Print Assumptions C10_refuted_fence_info_trailing_blank.
+
+(* ... and outside the class (no fence whose tag classifies differently without those blanks) both readings see the
+   same document *)
+Theorem C10_holds_outside_trailing_blank : forall (stmt : Type) (bs : list (block (role stmt))),
+  existsb block_in_class bs = false -> elems_of keep_tag bs = elems_of rtrim bs.
+Proof. exact (@readings_agree). Qed.
+Print Assumptions C10_holds_outside_trailing_blank.
+
+(* the verdict `kf fence-info-trailing-blank` is given only inside the class, only if the reading without the blanks
+   does NOT explain the observation and the code's reading explains it completely (tree and tables) *)
+Theorem C10_judge_lines_kf_sound : forall stream listed ls os,
+  judge_lines stream listed ls os = Some (v_kf "fence-info-trailing-blank") ->
+  exists D got rest bs n, os = (D, Some got) :: rest /\ scan_doc (prep ls) = Closed bs /\
+    kf_trailing_blank bs = true /\ variant_spec keep_tag (prep ls) bs D got (skipn n rest).
+Proof. exact judge_lines_kf_sound. Qed.
+Print Assumptions C10_judge_lines_kf_sound.
+
+(* ---- non-vacuity of sections 8-12 ---- *)
+(* x := 1 | ~~~ / ```mech:x / x := 2 / ``` / ~~~ (a plain fence showing a mech fence) | ```mech:me / a := 1 / ```
+   |   ```mech:disabled / x := 9 /   ``` (indented, after a fence) | a paragraph | y := x *)
+Definition example_lines : list (string * role tstmt) :=
+  [ ("x := 1", RStmt (TDef "x" (TLit 1))); ("", RBlank);
+    ("~~~", RFence); ("```mech:x", RProse); ("x := 2", RProse); ("```", RProse); ("~~~", RFence);
+    ("```mech:me", RFence); ("a := 1", RStmt (TDef "a" (TLit 1))); ("```", RFence);
+    ("  ```mech:disabled", RFence); ("  x := 9", RStmt (TDef "x" (TLit 9))); ("  ``` ", RFence);
+    ("Some words.", RProse); ("", RBlank);
+    ("y := x", RStmt (TDef "y" (TVar "x"))) ].
+
+Example C10_example_scan :
+  exists bs, scan_doc example_lines = Closed bs /\ wf_blocks role_is_code true bs /\
+    render RFence bs = example_lines /\
+    elems_of keep_tag bs =
+      [ Code [Stmt (TDef "x" (TLit 1))];
+        NonMech "```mech:x
+x := 2
+```
+";
+        Fence (FNamed "me") [Stmt (TDef "a" (TLit 1))];
+        Fence FDisabled [Stmt (TDef "x" (TLit 9))];
+        Prose "Some words.";
+        Code [Stmt (TDef "y" (TVar "x"))] ] /\
+    trun (elems_of keep_tag bs) =
+      DS (TS [("x", 1%Z); ("y", 1%Z)] (Some 1%Z)) [("me", TS [("a", 1%Z)] (Some 1%Z))] false.
+Proof.
+  eexists. split; [vm_compute; reflexivity|]. split.
+  - cbn. repeat split; try reflexivity; try (left; reflexivity); try (right; reflexivity);
+      intros l Hl; cbn in Hl; repeat (destruct Hl as [<-|Hl]; [reflexivity|]); contradiction.
+  - repeat split; vm_compute; reflexivity.
+Qed.
+Print Assumptions C10_example_scan.
+
+(* an unclosed fence: the `~~~` line does not close a ``` fence *)
+Example C10_example_unclosed :
+  doc_elems keep_tag [("x := 1", RStmt (TDef "x" (TLit 1))); ("```python", RFence); ("y = 2", RProse); ("~~~", RProse)] = None.
+Proof. reflexivity. Qed.
+Print Assumptions C10_example_unclosed.
+
+(* the extracted judge on line cases: a document with a nested fence of the other type -> ok; the same observation
+   with a fence name that lost its first letter (the seeded defect) -> bad; an unclosed fence and (perr) -> ok *)
+Example C10_example_judge_lines :
+  DocScan.run_line "((lncase scan (listed) (s """" ""x := 1"" 0) (f """" ""~~~"") (p """" ""```mech:x"") (p """" ""x := 2"") (p """" ""```"") (f """" ""~~~"") (f """" ""```mech:me"") (s """" ""a := 1"" 0) (f """" ""```"")) (docs (doc ""x := 1\n~~~\n```mech:x\nx := 2\n```\n~~~\n```mech:me\na := 1\n```\n"" (val) (syms (""x"" 0 0 (s f64 1))) (subs (""me"" (syms (""a"" 0 0 (s f64 1))))) (blocks (mc (items s)) (cb ""```mech:x\nx := 2\n```\n"") (fm ""me"" 1 0 0 (items s)))) (doc ""x := 1\n"" (val) (syms (""x"" 0 0 (s f64 1))) (subs) (blocks (mc (items s)))) (doc ""```mech:me\na := 1\n```\n"" (val) (syms) (subs (""me"" (syms (""a"" 0 0 (s f64 1))))) (blocks)) (doc ""a := 1\n"" (val) (syms (""a"" 0 0 (s f64 1))) (subs) (blocks))))"
+    = "(ok scan)" /\
+  DocScan.run_line "((lncase scan (listed) (f """" ""```mech:me"") (s """" ""a := 1"" 0) (f """" ""```"")) (docs (doc ""```mech:me\na := 1\n```\n"" (val) (syms) (subs (""me"" (syms (""a"" 0 0 (s f64 1))))) (blocks (fm ""e"" 1 0 0 (items s)))) (doc """" (val) (syms) (subs) (blocks)) (doc ""```mech:me\na := 1\n```\n"" (val) (syms) (subs (""me"" (syms (""a"" 0 0 (s f64 1))))) (blocks)) (doc ""a := 1\n"" (val) (syms (""a"" 0 0 (s f64 1))) (subs) (blocks))))"
+    = "(bad fence-structure-differs ((fm ""me"" 1 0 0 (s))))" /\
+  DocScan.run_line "((lncase scan (listed) (s """" ""x := 1"" 0) (f """" ""```python"") (p """" ""y = 2"") (p """" ""~~~"")) (docs (doc ""x := 1\n```python\ny = 2\n~~~\n"" (perr) (syms) (subs) (blocks))))"
+    = "(ok unclosed-fence-is-a-parse-error)".
+Proof. repeat split; vm_compute; reflexivity. Qed.
+Print Assumptions C10_example_judge_lines.
